@@ -272,6 +272,11 @@ def check_table_writes_locked(A, rep):
                                  f"{n.func}: `{t.stmt}` decides without the class lock that the resource has no lock yet, and `{n.stmt}` then installs one without re-checking: a thread that lost the race replaces a lock "
                                  "another thread already holds - that thread releases the wrong lock, the old one is never released and its waiters block forever",
                                  g.witness(w_), g.label)
+                    elif g.must_pass(g.entry, [n.id], locked_t) is not None:
+                        rep.fail("C10.e", norm_key("C10.e", n.func, "unconditional"),
+                                 f"{n.func}: `{n.stmt}` installs a new lock for the resource without testing (under the class lock) that it has none yet: the lock other objects bound to the same resource "
+                                 "are holding or waiting for is replaced - a writer in progress is no longer excluded (lost update) and releases a lock it never acquired",
+                                 g.witness(g.must_pass(g.entry, [n.id], locked_t)), g.label)
                     elif all("cls" in held_ids(s_) for s_ in st.get(n.id, [()])):
                         rep.ok("C10.e", f"C10.e {g.label}: `{n.stmt}` adds the lock under the class lock")
                     else:
